@@ -390,10 +390,15 @@ pub fn feature(proc: &str, args: &[usize]) -> Option<String> {
     let int = |i: usize| pal(i).filter(|p| p.group != Flo).and_then(|p| p.int);
     let len = |i: usize| pal(i).and_then(container_len);
     let n = args.len();
-    // circular data anywhere
+    // circular data anywhere: how many arguments, and which kind of cycle comes first
     let ncirc = args.iter().filter(|a| PALETTE[**a].group == Circ).count();
     if ncirc > 0 {
-        return Some(if proc == "equal?" { format!("circular,{}", if ncirc == 2 { "both" } else { "one" }) } else { "circular".into() });
+        let first = args.iter().map(|a| &PALETTE[*a]).find(|p| p.group == Circ).map(|p| p.class).unwrap_or("");
+        return Some(if proc == "equal?" {
+            format!("circular,argc={},{}", n, if ncirc == 2 { "both" } else { "one" })
+        } else {
+            format!("circular,argc={},{}", n, first)
+        });
     }
     const I32MIN: i128 = -2147483648;
     let rat_extreme = |i: usize| grp(i) == Some(Rat) && cls(i).contains("i32m");
